@@ -88,11 +88,11 @@ def plain (g : Mon) (op : Op) : Except String Mon :=
   match op with
   | .bind t =>
     if g.set.contains t then .error "dup"
-    else if g.set.length ≥ 10000 then .error "limit.tokens"
+    else if g.set.length ≥ 10000 then .error "limit.bind_token.tokens"
     else .ok { g with set := g.set ++ [t] }
   | .bindMany ts =>
-    if ts.length > 200 then .error "limit.batch"
-    else if g.set.length + ts.length > 10000 then .error "limit.tokens"
+    if ts.length > 200 then .error "limit.bind_tokens.batch_size"
+    else if g.set.length + ts.length > 10000 then .error "limit.bind_tokens.tokens"
     else if !nodupB ts then .error "dup_arg"
     else if ts.any g.set.contains then .error "dup"
     else .ok { g with set := g.set ++ ts }
@@ -111,12 +111,12 @@ def check (g : Mon) (opl obs : String) : Mon × Option String :=
       | .error _, false => (g, none)
       | .ok _, false => (g, some (
           let near := match op with
-            | .bind _ => if g.set.length = 9999 then "limit.tokens" else "valid"
-            | .bindMany ts => if g.set.length + ts.length = 10000 then "limit.tokens"
-                              else if ts.length = 200 then "limit.batch" else "valid"
+            | .bind _ => if g.set.length = 9999 then "limit.bind_token.tokens" else "valid"
+            | .bindMany ts => if g.set.length + ts.length = 10000 then "limit.bind_tokens.tokens"
+                              else if ts.length = 200 then "limit.bind_tokens.batch_size" else "valid"
             | _ => "valid"
-          s!"site=binder.{near}_refused the binder refused an operation the plain set (with its documented limits) accepts"))
-      | .error why, true => (g, some s!"site=binder.{why}_accepted the binder accepted an operation the plain set refuses ({why})")
+          refusedSite "binder" near))
+      | .error why, true => (g, some (acceptedSite "binder" why))
     let n := kvN ws "n"
     let listS := kvS ws "list"
     let full := if listS.startsWith "#" then none else some (natList listS)
